@@ -121,7 +121,13 @@ func verifNewEnv(plain bool, mode int) *verifEnv {
 	return e
 }
 
-func (e *verifEnv) str(name string) string { return verifStringN(name, e.slen) }
+// str: a symbolic string of slen bytes; with "varlen" the command's key has 0..slen bytes
+func (e *verifEnv) str(name string) string {
+	if name == "key" && verifParam("varlen") == 1 {
+		return verifString(name, e.slen)
+	}
+	return verifStringN(name, e.slen)
+}
 
 // seconds: a number of seconds whose nanosecond count fits time.Duration
 func (e *verifEnv) seconds(name string) int {
